@@ -738,7 +738,7 @@ def summarize(fn, assumptions=(), local=(), max_paths=64, max_decisions=32, feas
                 if g.get_id() not in seen_ob:
                     seen_ob.add(g.get_id())
                     S.obligations.append((g, msg, where))
-            stack.extend(c.pending)
+            stack.extend(alt for alt, _prio in c.pending)
     finally:
         T.set_ctx(outer)
     return S
